@@ -60,6 +60,11 @@ def shaped(kind, fn):
             def __call__(self, *a):
                 return fn(*a)
         return Callable()
+    if kind == 'falsy':             # a callable container that is empty, hence false in a boolean context
+        class Registry(dict):
+            def __call__(self, *a):
+                return fn(*a)
+        return Registry()
     if kind == 'defaults':
         def with_defaults(a=_M, b=_M, c=_M):
             return fn(*[x for x in (a, b, c) if x is not _M])
@@ -67,7 +72,7 @@ def shaped(kind, fn):
     raise ValueError(kind)
 
 
-SHAPES = ['closure', 'method', 'lambda', 'classmethod', 'partial', 'staticmethod', 'object', 'defaults']
+SHAPES = ['closure', 'method', 'lambda', 'classmethod', 'partial', 'staticmethod', 'object', 'defaults', 'falsy']
 
 
 class Hist(object):
@@ -85,14 +90,22 @@ class Hist(object):
         return self.h[p]
 
     def setvar(self, p, name, v):
-        self.parser(p).p.set_variable(name, dec(v))
+        try:
+            self.parser(p).p.set_variable(name, dec(v))
+        except Exception:      # registering a value - whatever it is - does not fail
+            self.ev.append({'e': 'setvar', 'p': p, 'name': name, 'v': v, 'raised': True})
+            return
         self.ev.append({'e': 'setvar', 'p': p, 'name': name, 'v': v})
 
     def setfn(self, p, name, c, shape=None):
         h = self.parser(p)
         self.nfn += 1
         kind = shape or SHAPES[self.nfn % len(SHAPES)]
-        h.p.set_function(name, shaped(kind, h.custom(name, c)))
+        try:
+            h.p.set_function(name, shaped(kind, h.custom(name, c)))
+        except Exception:
+            self.ev.append({'e': 'setfn', 'p': p, 'name': name, 'c': c, 'callable': kind, 'raised': True})
+            return
         self.ev.append({'e': 'setfn', 'p': p, 'name': name, 'c': c, 'callable': kind})
 
     def parse(self, p, ast, checks=CHECKS):
@@ -224,6 +237,20 @@ def resolve_trace(lib, names, tid):
     return {'tid': tid, 'ev': ev, 'case': {'resolve_all_documented_names': len(names)}}
 
 
+def near_miss_trace(lib, names, tid):
+    """names that are not documented but contain, or are contained in, a documented one: still #NAME?"""
+    h = Hist(lib, tid, {'near_miss_names': len(names)})
+    known = set(names)
+    for i, name in enumerate(names):
+        for cand in (name + '.ALL', name + '.X', name + '_2', name + 'X', 'X' + name, name + '.' + name, name[:-1] if len(name) > 2 else name + 'Q'):
+            if cand in known or not cand[0].isalpha():
+                continue
+            if (i + len(cand)) % 3 == 0:
+                h.parse('p1', F.call(cand, F.num('1'), F.num('2')))
+                h.parse('p1', F.binop('+', F.num('1'), F.call(cand, F.num('1'))))
+    return h.trace()
+
+
 def shadow_trace(lib, names, tid):
     """every documented name shadowed by a custom function, called with 0, 1 and 2 arguments: the custom function
     is the one that is called, once, and its value is the call's value"""
@@ -256,6 +283,8 @@ def main(tier, replay=None):
             tr = [resolve_trace(lib, names, 1)]
         elif 'shadow_all_documented_names' in case:
             tr = [shadow_trace(lib, names, 1)]
+        elif 'near_miss_names' in case:
+            tr = [near_miss_trace(lib, names, 1)]
         else:
             tr = [replay_case(lib, 1, case)]
         core.validate_hist(run, tr, 'replay', consts, engine='c09')
@@ -298,6 +327,7 @@ def main(tier, replay=None):
         rc = random_case(rng, i)
         emit(lambda tid: replay_case(lib, tid, rc))
     emit(lambda tid: shadow_trace(lib, names, tid))
+    emit(lambda tid: near_miss_trace(lib, names, tid))
     emit(lambda tid: resolve_trace(lib, names, tid))
     flush()
     run.exhaustive = True
